@@ -7,7 +7,7 @@ CONSTANTS Seed = 1
  AtLens = {1,5,129,300}
  MaxOps = 2
  MaxPos = 1300
- OutFile = "/tmp/c11-work/eea.ndjson"
+ OutFile = "/tmp/vs/c11eea.ndjson"
 SPECIFICATION Spec
 VIEW View
 INVARIANTS TypeOK
